@@ -142,6 +142,9 @@ def run_impl(case):
             (case["tx"], case["ty"], 0.0), I.Quaternion(axis=[0, 0, 1], angle=t0), I.FrameID.BASE_LINK, I.FrameID.MAP
         )
         transforms = I.TransformDict([ego2map])
+        from harness import builders as _B  # registry with a history (replaced ego pose), see builders.give_history
+
+        transforms = _B.maybe_history(transforms, ego2map, ("c09", case["te"], case.get("tg"), case["tx"]))
         cache = {}
 
         def obj(which, frame, sign):
